@@ -120,6 +120,13 @@ fn run(case: &[u64]) -> Result<Vec<u64>, BadCase> {
     }
 
     verif::start();
+    let main_thread = {
+        verif::emit(U_PUSH, u64::MAX, 0);
+        0u64
+    };
+    let _ = main_thread;
+    let jobs_done = std::sync::Arc::new(std::sync::atomic::AtomicUsize::new(0));
+    let mut jobs_started = 0usize;
     let mut proactor = Some(builder.build().map_err(|_| BadCase)?);
     let mut slots: Vec<Slot> = Vec::new();
     let mut results: Vec<SlotRes> = Vec::new();
@@ -187,9 +194,12 @@ fn run(case: &[u64]) -> Result<Vec<u64>, BadCase> {
                     }
                     _ => {
                         let ms = a;
+                        let done = jobs_done.clone();
+                        jobs_started += 1;
                         let f: Box<dyn FnOnce() -> BufResult<usize, u64> + std::marker::Send> =
                             Box::new(move || {
                                 std::thread::sleep(Duration::from_millis(ms));
+                                done.fetch_add(1, std::sync::atomic::Ordering::SeqCst);
                                 BufResult(Ok(7), 42)
                             });
                         let o: BlockOp = Asyncify::new(f);
@@ -393,15 +403,17 @@ fn run(case: &[u64]) -> Result<Vec<u64>, BadCase> {
             }
         }
     }
-    // let blocking jobs finish before the driver goes away
-    std::thread::sleep(Duration::from_millis(
-        results
-            .iter()
-            .filter(|r| r.kind == 3)
-            .map(|r| r.res + 5)
-            .max()
-            .unwrap_or(0),
-    ));
+    // let every blocking job finish (and its pool thread log BLOCKING_END) before
+    // the driver goes away and before the next case starts recording
+    let t0 = std::time::Instant::now();
+    while jobs_done.load(std::sync::atomic::Ordering::SeqCst) < jobs_started
+        && t0.elapsed() < Duration::from_secs(5)
+    {
+        std::thread::sleep(Duration::from_millis(1));
+    }
+    if jobs_started > 0 {
+        std::thread::sleep(Duration::from_millis(5));
+    }
     if let Some(mut p) = proactor.take() {
         let _ = p.poll(Some(Duration::ZERO));
         drop(p);
@@ -425,7 +437,7 @@ fn run(case: &[u64]) -> Result<Vec<u64>, BadCase> {
                 }
                 next += 1;
             }
-            U_PUSH => cur_push = Some(e.a),
+            U_PUSH if e.a != u64::MAX => cur_push = Some(e.a),
             U_PUSHED => cur_push = None,
             verif::KEY_FREE => {
                 // an address may be reused by a later allocation: forget it once freed
@@ -436,8 +448,12 @@ fn run(case: &[u64]) -> Result<Vec<u64>, BadCase> {
     // second pass with address reuse handled: walk again, tracking live addresses
     let mut live: HashMap<u64, u64> = HashMap::new();
     let mut next = 0u64;
+    let main_tid = log.iter().find(|e| e.kind == U_PUSH && e.a == u64::MAX).map_or(0, |e| e.thread);
     for e in &log {
         let k = e.kind;
+        if k == U_PUSH && e.a == u64::MAX {
+            continue;
+        }
         if k == verif::KEY_NEW {
             live.insert(e.a, next);
             evs.push((1, next, 0));
@@ -467,7 +483,15 @@ fn run(case: &[u64]) -> Result<Vec<u64>, BadCase> {
         if k >= 20 && k != verif::POOL_BUF {
             continue; // wake/enter events: not part of the key model
         }
-        let key = if e.a == 0 { 0 } else { *live.get(&e.a).unwrap_or(&9_999_999) };
+        let key = if e.a == 0 {
+            0
+        } else if let Some(k) = live.get(&e.a) {
+            *k
+        } else if e.thread != main_tid {
+            continue; // a straggling pool thread of an earlier case
+        } else {
+            9_999_999
+        };
         let arg = if e.b < 0 { (-e.b) as u64 + 1_000_000 } else { e.b as u64 };
         evs.push((k as u64, key, arg));
         if k == verif::KEY_FREE {
